@@ -529,6 +529,10 @@ MISSING = Missing()
 _ATOMS = (Obj, ClassV, Opaque, Func, Bound, Builtin, Callback, ExtV, ModuleV, Seg)
 
 
+# interpreter mode: `python -W error` (warnings.simplefilter("error")) turns every warnings.warn() call into a raise of its category.
+# Set by sa.check for the second pass of the checks that have one (a tree that never calls warnings.warn has no such pass).
+WARNINGS_AS_ERRORS = False
+
 MODELLED_EXTERN_BASES = {"enum.Enum", "enum.IntEnum", "enum.StrEnum", "dill.Pickler", "pickle.Pickler", "pickle._Pickler", "abc.ABC", "typing.Generic", "typing.Protocol"}
 
 
